@@ -611,9 +611,28 @@ func ruleC05Pos(c *Checker) {
 		for _, wh := range w.WriteHeaders {
 			h := headerAlloc(wh)
 			for _, ns := range headerFieldStores(w.Fn, h, "Name") {
+				// the Rel call whose result becomes the name — not one that merely feeds the position
+				// (the path relative to the walked directory, joined onto the destination first)
+				var rels []*ssa.Call
 				for v := range p.backSlice(ns.Val, 0) {
 					if cl, ok := v.(*ssa.Call); ok && isFunc(calleeObj(cl), "path/filepath", "Rel") {
-						archPos = append(archPos, canon(cl.Call.Args[1]))
+						rels = append(rels, cl)
+					}
+				}
+				for _, c1 := range rels {
+					inner := false
+					for _, c2 := range rels {
+						if c1 == c2 {
+							continue
+						}
+						for _, a := range c2.Call.Args {
+							if p.backSlice(a, 0)[c1] {
+								inner = true
+							}
+						}
+					}
+					if !inner {
+						archPos = append(archPos, canon(c1.Call.Args[1]))
 					}
 				}
 			}
